@@ -279,7 +279,7 @@ func runC05(c *Ctx) {
 					continue
 				}
 				_, s := ownerOfFieldBase(fa.X.Type())
-				if s == nil || s.Field(fa.Field).Name() != "init" {
+				if s == nil || fieldNameOf(s.Field(fa.Field)) != "init" {
 					continue
 				}
 				n++
@@ -330,7 +330,7 @@ func appendTargets(fn *ssa.Function, owner string) map[*ssa.Call]string {
 			if o != owner || s == nil {
 				continue
 			}
-			field := s.Field(fa.Field).Name()
+			field := fieldNameOf(s.Field(fa.Field))
 			seen := map[ssa.Value]bool{}
 			var back func(v ssa.Value)
 			back = func(v ssa.Value) {
@@ -370,7 +370,7 @@ func kvLiteral(tb *termBuilder, v ssa.Value) (key, val *Term, ok bool) {
 		_, s := ownerOfFieldBase(fa.X.Type())
 		for _, rr := range *fa.Referrers() {
 			if st, isSt := rr.(*ssa.Store); isSt && st.Addr == fa {
-				switch s.Field(fa.Field).Name() {
+				switch fieldNameOf(s.Field(fa.Field)) {
 				case "Key":
 					key = tb.of(st.Val, 0)
 				case "Value":
